@@ -460,10 +460,25 @@ func (q *qInterp) evalInt(f *qFrame, x ast.Expr) ival {
 			a := q.evalIntAny(f, v.Args[0])
 			if a.known && a.v >= 0 {
 				switch fn.Name() {
-				case "Len64", "Len":
+				case "Len64", "Len", "Len32":
 					n := int64(0)
 					for t := a.v; t > 0; t >>= 1 {
 						n++
+					}
+					return ival{true, n}
+				case "TrailingZeros64", "TrailingZeros", "TrailingZeros32":
+					if a.v == 0 {
+						return ival{}
+					}
+					n := int64(0)
+					for t := a.v; t&1 == 0; t >>= 1 {
+						n++
+					}
+					return ival{true, n}
+				case "OnesCount64", "OnesCount", "OnesCount32":
+					n := int64(0)
+					for t := a.v; t > 0; t >>= 1 {
+						n += t & 1
 					}
 					return ival{true, n}
 				}
@@ -1168,29 +1183,76 @@ func (q *qInterp) stmt(f *qFrame, st ast.Stmt) *qFrame {
 		}
 		return q.parallel(f, false, func(g *qFrame) *qFrame { return q.block(g, s.Body.List) })
 	case *ast.SwitchStmt:
-		// tagless or tagged switch: every clause from the same entry state, joined
+		// tagged over an integer or tagless over conditions: the clauses are tried in order, a clause whose test is
+		// decided selects or is skipped, an undecided one is entered on a copy of the state and joined
 		if s.Init != nil {
 			f = q.stmt(f, s.Init)
 		}
+		var tag ival
+		tagged := s.Tag != nil
+		if tagged {
+			tag = q.evalIntAny(f, s.Tag)
+		}
 		var res *qFrame
-		hasDefault := false
+		var deflt *ast.CaseClause
+		decided := false
 		for _, cl := range s.Body.List {
 			cc := cl.(*ast.CaseClause)
 			if cc.List == nil {
-				hasDefault = true
+				deflt = cc
+				continue
 			}
-			g := q.block(f.clone(), cc.Body)
+			// 1 taken for sure, 2 not taken, 0 unknown
+			verdict := 2
+			for _, e := range cc.List {
+				v := 0
+				if tagged {
+					if c := q.evalIntAny(f, e); tag.known && c.known {
+						if tag.v == c.v {
+							v = 1
+						} else {
+							v = 2
+						}
+					}
+				} else {
+					v = q.evalBool(f, e)
+				}
+				if v == 1 {
+					verdict = 1
+					break
+				}
+				if v == 0 {
+					verdict = 0
+				}
+			}
+			if verdict == 2 {
+				continue
+			}
+			g := f.clone()
+			if !tagged && len(cc.List) == 1 {
+				q.refine(g, cc.List[0], true)
+			}
+			g = q.block(g, cc.Body)
 			if res == nil {
 				res = g
 			} else {
 				res = joinFrames(res, g)
 			}
+			if verdict == 1 {
+				decided = true
+				break
+			}
 		}
-		if res == nil {
-			return f
-		}
-		if !hasDefault {
-			res = joinFrames(res, f)
+		if !decided {
+			g := f.clone()
+			if deflt != nil {
+				g = q.block(g, deflt.Body)
+			}
+			if res == nil {
+				res = g
+			} else {
+				res = joinFrames(res, g)
+			}
 		}
 		return res
 	}
